@@ -139,6 +139,32 @@ static std::vector<Rej> catalogue() {
     add("EntityWithMetadata::metadata(unknown id) on source", [](File &f) { S0(f).metadata(UNKNOWN_ID); });
     add("EntityWithMetadata::metadata(empty id)", [](File &f) { B0(f).metadata(""); });
     add("Section::link(unknown id)", [](File &f) { X0(f).link(UNKNOWN_ID); });
+    // ---- entities of ANOTHER block / ANOTHER file handed to the remaining link operations ----
+    add("Group::addTag(tag of another block)", [](File &f) { Block o = B1(f); need(o.tagCount() > 0); G0(f).addTag(o.getTag(0)); });
+    add("Group::addMultiTag(multi-tag of another block)", [](File &f) { Block o = B1(f); need(o.multiTagCount() > 0); G0(f).addMultiTag(o.getMultiTag(0)); });
+    add("Group::addDataFrame(frame of another block)", [](File &f) { Block o = B1(f); need(o.dataFrameCount() > 0); G0(f).addDataFrame(o.getDataFrame(0)); });
+    add("Group::tags(vector with a foreign tag)", [](File &f) { Block o = B1(f); need(o.tagCount() > 0); Group g = G0(f); std::vector<Tag> v = g.tags(); v.insert(v.begin(), T0(f)); v.push_back(o.getTag(0)); g.tags(v); });
+    add("Group::dataFrames(vector with a foreign frame)", [](File &f) { Block o = B1(f); need(o.dataFrameCount() > 0); Group g = G0(f); std::vector<DataFrame> v = {F0(f), o.getDataFrame(0)}; g.dataFrames(v); });
+    add("MultiTag::createFeature(array of another block)", [](File &f) { M0(f).createFeature(foreignA(f), LinkType::Indexed); });
+    add("MultiTag::references(vector with a foreign array)", [](File &f) { MultiTag m = M0(f); m.references({A0(f), foreignA(f)}); });
+    add("DataArray::addSource(source of another block)", [](File &f) { Block o = B1(f); need(o.sourceCount() > 0); A0(f).addSource(o.getSource(0)); });
+    add("Tag::addSource(source of another block)", [](File &f) { Block o = B1(f); need(o.sourceCount() > 0); T0(f).addSource(o.getSource(0)); });
+    add("MultiTag::addSource(id of a source of another block)", [](File &f) { Block o = B1(f); need(o.sourceCount() > 0); M0(f).addSource(o.getSource(0).id()); });
+    add("DataArray::sources(vector with a source of another block)", [](File &f) { Block o = B1(f); need(o.sourceCount() > 0); DataArray a = A0(f); a.sources({S0(f), o.getSource(0)}); });
+    {
+        // a second file: its entities are foreign to the file under test whatever their names are
+        auto other = []() -> File { static File of; if (!of) { of = File::open(vf::scratch_file("c08_other_file.h5"), FileMode::Overwrite); Section x = of.createSection("x1", "t"); x.createSection("x2", "t"); Block b = of.createBlock("b1", "t"); b.createDataArray("a1", "t", DataType::Double, NDSize({3})); b.createSource("s1", "t"); b.createTag("t1", "t", {1.0}); b.createDataFrame("f1", "t", std::vector<Column>{{"k", "", DataType::Int32}}); } return of; };
+        add("Block::metadata(section of another file)", [other](File &f) { B0(f).metadata(other().getSection(0)); });
+        add("DataArray::metadata(section of another file)", [other](File &f) { A0(f).metadata(other().getSection(0)); });
+        add("Section::link(section of another file)", [other](File &f) { need(f.sectionCount() > 0); f.getSection(0).link(other().getSection(0)); });
+        add("Tag::addReference(array of another file)", [other](File &f) { T0(f).addReference(other().getBlock(0).getDataArray(0)); });
+        add("Tag::createFeature(array of another file)", [other](File &f) { T0(f).createFeature(other().getBlock(0).getDataArray(0), LinkType::Untagged); });
+        add("Block::createMultiTag(positions of another file)", [other](File &f) { B0(f).createMultiTag("fresh_m", "t", other().getBlock(0).getDataArray(0)); });
+        add("Group::addDataArray(array of another file)", [other](File &f) { G0(f).addDataArray(other().getBlock(0).getDataArray(0)); });
+        add("Group::addTag(tag of another file)", [other](File &f) { G0(f).addTag(other().getBlock(0).getTag(0)); });
+        add("DataArray::addSource(source of another file)", [other](File &f) { A0(f).addSource(other().getBlock(0).getSource(0)); });
+        add("DataArray::appendDataFrameDimension(frame of another file)", [other](File &f) { A0(f).appendDataFrameDimension(other().getBlock(0).getDataFrame(0)); });
+    }
     add("Group::addDataArray(array of another block)", [](File &f) { G0(f).addDataArray(foreignA(f)); });
     add("Group::addDataArray(unknown id)", [](File &f) { G0(f).addDataArray(UNKNOWN_ID); });
     add("Group::addTag(unknown name)", [](File &f) { G0(f).addTag("no_such_tag"); });
